@@ -6,7 +6,7 @@
 From Coq Require Import ZArith List Lia Bool.
 From EV Require Import Res Arr Join JoinSpec JoinBase JoinIface JoinDriver JoinMain MapStream MapStreamSpec MapStreamBase
   MapIndexedDriver Merge MergeSpec MergeBase MergeOrdered MergeMaps MergeTop MergeRows MergeRefuted
-  JoinAll MergeAll MergeCopy MergeShape KeyView MergeView.
+  JoinAll MergeAll MergeCopy MergeShape KeyView MergeView MergeChain MergeChainP.
 Import ListNotations.
 Open Scope Z_scope.
 
@@ -593,3 +593,55 @@ Theorem binary64_key_comparison_refuted :       (* F-C02i, known finding: the re
                ++ [(N_valid ++ sufR, CFix [0] [0] [[1];[0]])]).
 Proof. exact binary64_comparison_breaks_merge. Qed.
 Print Assumptions binary64_key_comparison_refuted.
+
+(* ---- field names as data; destinations that hold fields; chains of merges (strengthening VC02) ------------ *)
+Theorem merge_into_empty_destination :
+  (* Model/MergeChain.v merge_into (merge into a destination that already holds fields) is merge when it holds none *)
+  forall pd a, merge_into pd [] a = merge pd a.
+Proof. exact merge_into_nil. Qed.
+Print Assumptions merge_into_empty_destination.
+
+Theorem payload_called_like_map_refuted :       (* F-C02j, known finding *)
+  (* a left payload field called '_right_map', how='left': with the (truthful) ordered hints the streamed path has
+     created its own '_right_map' before the payload is written and the call raises ValueError; without hints the merge
+     is the relational join (plus valid_r) *)
+  is_ordered (j_args true) = true /\
+  merge join_pairs (j_args true) = Raise E_ValueError /\
+  merge join_pairs (j_args false)
+  = Ok (false, merge_spec 0 [[1;2;4]] [[2;3;4]] (a_lcols (j_args false)) (a_rcols (j_args false)) s_l s_r
+               ++ [(N_valid ++ s_r, CFix [0] [0] [[0];[1];[1]])]).
+Proof. exact payload_called_like_map_raises. Qed.
+Print Assumptions payload_called_like_map_refuted.
+
+Theorem payload_called_like_absent_map_is_data :
+  (* the same payload name where the streamed path creates no '_right_map' of its own (how='right', left keys hinted
+     unique): the payload is an ordinary column; the destination is '_left_map' followed by the relational join and the
+     right frame's column comes out unchanged (the class of seeded change C02-r4-1: a map looked up by name after
+     payload columns were written takes this column for the right map) *)
+  exists m, merge join_pairs c_args
+            = Ok (true, (N_left_map, m) ::
+                        merge_spec 1 [[1;2;4]] [[2;3;4]] (a_lcols c_args) (a_rcols c_args) s_l s_r) /\
+            frame_get (merge_spec 1 [[1;2;4]] [[2;3;4]] (a_lcols c_args) (a_rcols c_args) s_l s_r) nb = Some (ncol [7;8;9]).
+Proof. exact MergeChainP.payload_called_like_absent_map_is_data. Qed.
+Print Assumptions payload_called_like_absent_map_is_data.
+
+Theorem chained_merge_map_field_is_payload :
+  (* A left-join B (streamed, every hint) leaves '_right_map' in its destination; that destination right-join C (every
+     hint): '_right_map' is a payload column of the left frame, the second destination is '_left_map' followed by the
+     relational join of (first destination, C), and C's column is unchanged *)
+  match merge_into join_pairs [] a1 with
+  | Ok (_, d1) =>
+    match chain_args a1 d1 st2 with
+    | Some a2 =>
+      name_in N_right_map (frame_names (a_lcols a2)) = true /\
+      exists m, merge_chain join_pairs [] a1 st2
+                = Ok (true, (N_left_map, m) ::
+                            merge_spec 1 (a_lkeys a2) (a_rkeys a2) (a_lcols a2) (a_rcols a2) s_l s_r) /\
+                frame_get (merge_spec 1 (a_lkeys a2) (a_rkeys a2) (a_lcols a2) (a_rcols a2) s_l s_r) nc
+                = Some (ncol [1000;1001;1003;1004;1005;1009;1010])
+    | None => False
+    end
+  | _ => False
+  end.
+Proof. exact chain_map_field_is_payload. Qed.
+Print Assumptions chained_merge_map_field_is_payload.
